@@ -77,7 +77,11 @@ class GParser:
     def run_lambda(s, spec, argvals, st, ctx):
         lam, module = s.lambdas_of(spec["file"], spec["line"], spec["args"])
         sub = Ctx(s.eng, module, None, f"{module}.<lambda@{spec['line']}>", parent=ctx)
-        saved = st.locals; st.locals = dict(zip([a.arg for a in lam.args.args], argvals))
+        free = {}
+        for nm, v in (spec.get("freevars") or {}).items():
+            if isinstance(v, dict): raise Unsupported(f"closure variable {nm} of the function at line {spec['line']} holds {v.get('obj')}")
+            free[nm] = v
+        saved = st.locals; st.locals = {**free, **dict(zip([a.arg for a in lam.args.args], argvals))}
         outs = []
         if isinstance(lam, ast.FunctionDef):       # a named function given to Computed / ExprAdapter
             for st1, flow, val in s.eng.exec_block(lam.body, st, sub):
